@@ -297,6 +297,28 @@ def determinism_obligations(rep, modules=('yp_generator', 'yp_prolog_visitor', '
 
 
 # ---------------------------------------------------------------------------------------------
+def _expand_helpers(body, mod, depth=0):
+    """statement-level inlining for the typestate scan: a statement `helper(a, b)` calling a module-level function whose body is a
+    sequence of expression statements is replaced by that body with the parameters replaced by the argument expressions"""
+    import copy
+    out = []
+    for s in body:
+        c = s.value if isinstance(s, ast.Expr) and isinstance(s.value, ast.Call) else None
+        fd = mod.functions.get(c.func.id) if c is not None and isinstance(c.func, ast.Name) else None
+        if fd is not None and depth < 3 and not c.keywords and len(c.args) == len(fd.args.args) and not fd.args.vararg \
+                and not fd.decorator_list and all(isinstance(x, ast.Expr) for x in core.strip_doc(fd.body)):
+            sub = dict(zip([a.arg for a in fd.args.args], c.args))
+
+            class R(ast.NodeTransformer):
+                def visit_Name(self, n):
+                    return copy.deepcopy(sub[n.id]) if n.id in sub and isinstance(n.ctx, ast.Load) else n
+            inl = [ast.fix_missing_locations(ast.copy_location(R().visit(copy.deepcopy(x)), s)) for x in core.strip_doc(fd.body)]
+            out.extend(_expand_helpers(inl, mod, depth + 1))
+        else:
+            out.append(s)
+    return out
+
+
 def strict_parsing_obligations(rep):
     """C10: typestate of the ANTLR objects in _compile_prolog_from_stream: on every path to the return the lexer and the
     parser have had their error listeners replaced by one whose syntaxError always raises, before program() runs, and the
@@ -322,7 +344,7 @@ def strict_parsing_obligations(rep):
     removed, added = set(), set()
     parsed_at = None
     eof_checked = False
-    body = core.strip_doc(fn.body)
+    body = _expand_helpers(core.strip_doc(fn.body), mod)
     for i, s in enumerate(body):
         if isinstance(s, ast.Assign) and isinstance(s.targets[0], ast.Name) and isinstance(s.value, ast.Call):
             t, c = s.targets[0].id, s.value
